@@ -125,6 +125,10 @@ func (b *Builder) getValueSize() int {
 // Index generation will fail if the same key is inserted twice.
 // The writer must not pass a value greater than targetFileSize.
 func (b *Builder) Insert(key []byte, value []byte) error {
+	if len(key) > math.MaxUint16 {
+		// The key length is stored in a uint16.
+		return fmt.Errorf("key is too long: %d > %d", len(key), math.MaxUint16)
+	}
 	return b.buckets[b.Header.BucketHash(key)].writeTuple(key, value)
 }
 
